@@ -114,7 +114,9 @@ def record(payload):
     rng0 = random.Random(payload["seed"])
     tid = payload["tid0"]
     for inst in payload["insts"]:
-        kinds = ["bn"] if inst["kind"] == "bn" else (["mn", "jt", "ujt"] + ([] if c14._has_dups(inst) else ["fg"]))
+        # "tiny": the same Markov network with every potential multiplied by 1e-7 (unnormalised beliefs around 1e-30 and below):
+        # only the normalised answers are recorded for it
+        kinds = ["bn"] if inst["kind"] == "bn" else (["mn", "jt", "ujt", "tiny"] + ([] if c14._has_dups(inst) else ["fg"]))
         for kind in kinds:
             seed = payload["seed"] if payload.get("exact_seed") else rng0.randrange(10 ** 9)
             rng = random.Random(seed)
@@ -124,6 +126,8 @@ def record(payload):
                 model = build_bn({"nodes": inst["nodes"], "states": inst["states"], "parents": inst["parents"], "cpd": inst["cpd"]}, conc, rng)
             elif kind == "mn":
                 model = mnutil.build_mn(inst, conc, rng)
+            elif kind == "tiny":
+                model = mnutil.build_mn(inst, conc, rng, scale=1e-7)
             elif kind == "fg":
                 model = mnutil.build_fg(inst, conc, rng)
             elif kind == "jt":
@@ -133,7 +137,7 @@ def record(payload):
             idx = {}
 
             def tracer(evname, **f):
-                if evname != "BP.Send":
+                if evname != "BP.Send" or kind == "tiny":
                     return
                 b, _ = mnutil.proj_factor(f["beta"], conc)
                 m, _ = mnutil.proj_factor(f["mu"], conc)
@@ -141,6 +145,8 @@ def record(payload):
                                "beta_scope": b["scope"], "beta": b["cells"], "mu_scope": m["scope"], "mu": m["cells"]})
 
             def install(bp):
+                if kind == "tiny":
+                    return
                 e, ix = c14._jt_event(bp.junction_tree, conc, kind, True)
                 idx.clear()
                 idx.update(ix)
@@ -157,7 +163,7 @@ def record(payload):
             snap_model = model_snapshot(model)
             _verif.set_tracer(tracer)
             try:
-                for op, fn in ((("marginalize", "calibrate"), ("maximize", "max_calibrate")) if payload["mode"] == "bp" else ()):
+                for op, fn in ((("marginalize", "calibrate"), ("maximize", "max_calibrate")) if payload["mode"] == "bp" and kind != "tiny" else ()):
                     install(bp)
                     try:
                         getattr(bp, fn)()
